@@ -157,6 +157,41 @@ func enter(c any) (leave func(), cyclic bool) {
 	return func() { delete(visiting, p) }, false
 }
 
+// snapshot deep-copies a result root right after a run: results can share
+// containers with the plan (set stores plan literals by reference), so a
+// later run of the same plan may change an earlier result in retrospect. A
+// cyclic part is kept by reference.
+func snapshot(v any) any {
+	switch t := v.(type) {
+	case []any:
+		if len(t) == 0 {
+			return []any{}
+		}
+		leave, cyclic := enter(t)
+		if cyclic {
+			return t
+		}
+		defer leave()
+		out := make([]any, len(t))
+		for i, e := range t {
+			out[i] = snapshot(e)
+		}
+		return out
+	case map[string]any:
+		leave, cyclic := enter(t)
+		if cyclic {
+			return t
+		}
+		defer leave()
+		out := make(map[string]any, len(t))
+		for k, e := range t {
+			out[k] = snapshot(e)
+		}
+		return out
+	}
+	return v
+}
+
 func intOf(v any) (int64, bool) {
 	rv := reflect.ValueOf(v)
 	switch rv.Kind() {
@@ -178,11 +213,29 @@ func floatOf(v any) (float64, bool) {
 	return 0, false
 }
 
+// numByValue relaxes eqStrict for the reprint oracle: 2 and 2.0 are the same
+// number there (a printed plan is JSON/SEN text).
+var numByValue bool
+
+// eqNumeric is eqStrict with numbers compared by value.
+func eqNumeric(a, b any) bool {
+	numByValue = true
+	defer func() { numByValue = false }()
+	return eqStrict(a, b, 0)
+}
+
 // eqStrict: exact equality of two results of the SAME plan (determinism,
 // reprint, non-interference): Go types must agree.
 func eqStrict(a, b any, depth int) bool {
 	if depth > maxDepth {
 		return true
+	}
+	if numByValue {
+		fa, aok := numOf(a)
+		fb, bok := numOf(b)
+		if aok || bok {
+			return aok && bok && (fa == fb || (math.IsNaN(fa) && math.IsNaN(fb)))
+		}
 	}
 	switch ta := a.(type) {
 	case nil:
